@@ -227,6 +227,19 @@ class Codec:
         self.report(rule, "abstract-at:all", self.roundtrip(positions_model(mb, POSITIONS)),
                     "abstract flag on a feature in every position", ("abstract",))
 
+    def positions_sweep(self, mb: ModelBuilder, rule: str, key: str, owns: tuple[str, ...],
+                        decorate: Callable[[AObj], None], what: str, groups: bool = True) -> None:
+        """A per-feature decoration (type, cardinality, attribute ...) round-trips whatever the
+        structural position of the feature carrying it."""
+        from .roundtrip import features
+        for pos in POSITIONS:
+            m = positions_model(mb, [], groups=groups)
+            target = [f for f in features(m) if f._f["name"] == pos]
+            if not target:
+                continue
+            decorate(target[0])
+            self.report(rule, f"{key}-at:{pos}", self.roundtrip(m), f"{what} on the feature in position {pos}", owns)
+
     def finish_unowned(self) -> None:
         for c, t in sorted(self.unowned.items()):
             if c not in self.owned_seen:
